@@ -153,15 +153,7 @@ def _check_correction(repo, rep):
         rep.ok("R-POLY.radii-correction", F, "Lambda = x'^2/rx^2 + y'^2/ry^2 with the half chord rotated by -phi (identity of rational functions); both radii scaled by sqrt(Lambda) iff Lambda > 1", True)
     else:
         rep.fail("R-POLY.radii-correction", F, "if radii_scale > 1", "the correction no longer has both outcomes (scaled / unchanged)", A, A.func("EllipticalArc.correct_out_of_range_radii"))
-    a2c = A.func("_arc_to_cubic")
-    body = [unparse(s) for s in a2c.body]
-    i1 = next((i for i, b in enumerate(body) if "correct_out_of_range_radii()" in b), -1)
-    i2 = next((i for i, b in enumerate(body) if "end_to_center_parametrization()" in b), -1)
-    if 0 <= i1 < i2 and body[i1].startswith("arc = ") and body[i2].startswith("arc_params = arc."):
-        rep.ok("R-POLY.radii-correction", "arc_to_cubic._arc_to_cubic: radii corrected before the centre parametrisation (on the corrected arc)")
-    else:
-        rep.fail("R-POLY.radii-correction", "arc_to_cubic._arc_to_cubic", "arc = arc.correct_out_of_range_radii(); arc_params = arc.end_to_center_parametrization()",
-                 "the parametrisation does not run on the corrected radii", A, a2c)
+    # (that the parametrisation and the final scale use the corrected radii is decided in _check_segments)
 
 
 def _center(repo, large, sweep):
@@ -305,9 +297,19 @@ def _check_segments(repo, rep):
     clo = Closure(A, seg, None, "_one_segment")
     params = Rec(ClassRef("arc_to_cubic", "CenterParametrization"), {"theta1": S("t1"), "theta_arc": S("ta"), "center_point": P2("c")})
 
+    receivers = []
+
     def setup(it):
-        it.hooks[("arc_to_cubic", "EllipticalArc.correct_out_of_range_radii")] = lambda i, a, k: a[0]
-        it.hooks[("arc_to_cubic", "EllipticalArc.end_to_center_parametrization")] = lambda i, a, k: params
+        def corrected(i, a, k):
+            r = i.deepcopy(a[0])
+            r.f["rx"], r.f["ry"] = S("rxc"), S("ryc")
+            return r
+
+        def parametrize(i, a, k):
+            receivers.append((repr(a[0].f.get("rx")), repr(a[0].f.get("ry"))))
+            return params
+        it.hooks[("arc_to_cubic", "EllipticalArc.correct_out_of_range_radii")] = corrected
+        it.hooks[("arc_to_cubic", "EllipticalArc.end_to_center_parametrization")] = parametrize
 
     outs = _und(explore(repo, clo, [], fresh_args=lambda: ([ARC(), S("i"), S("n")], {}), setup=setup, max_paths=64), F)
     s_, e_ = S("t1") + S("i") * S("ta") / S("n"), S("t1") + (S("i") + 1) * S("ta") / S("n")
@@ -317,7 +319,7 @@ def _check_segments(repo, rep):
     cp, sp = fn_atom("cos", phi), fn_atom("sin", phi)
 
     def T(x, y):
-        x, y = x * S("rx"), y * S("ry")
+        x, y = x * S("rxc"), y * S("ryc")
         return (cp * x - sp * y + S("cx"), sp * x + cp * y + S("cy"))
 
     want1, want2, wante = T(cs - t * sn, sn + t * cs), T(ce + t * se, se - t * ce), T(ce, se)
@@ -351,6 +353,11 @@ def _check_segments(repo, rep):
             bad = f"control points of segment i are {p1}, {p2}; the tangent construction P(s) + t T(s), P(e) - t T(e) with t = 4/3 tan((e-s)/4), mapped to user space, is expected"
         elif not same_pt(endp, wante):
             bad = f"segment i ends at {endp}; the point of the ellipse at angle theta1 + (i+1) theta_arc / n is expected"
+    if not receivers or any(r != ("rxc", "ryc") for r in receivers):
+        rep.fail("R-POLY.radii-correction", F, "centre parametrisation of the corrected arc",
+                 f"the centre parametrisation is computed for radii {sorted(set(receivers)) or 'never'}; it must run on the arc returned by the radius correction", A, fn)
+    else:
+        rep.ok("R-POLY.radii-correction", F + ": the centre parametrisation and the final scale use the corrected radii", "", True)
     if bad or not (seen_last and seen_mid):
         rep.fail("R-POLY.arc-segments", F, "one iteration of the segment loop", (bad or "the loop does not distinguish the last segment (which must end exactly at the arc's end point)")[:600], A, loop)
     else:
@@ -366,6 +373,7 @@ _A = "arc_to_cubic"
 VARIANTS = [
     Variant("reverted-fix F7: signed radii", [Edit(_A, "arc_to_cubic", "start_point, fabs(rx), fabs(ry), rotation, large, sweep, end_point", "start_point, rx, ry, rotation, large, sweep, end_point")],
             [("R-GUARD.radii-sign", "arc_to_cubic")]),
+    Variant("radius correction computed but not used", [Edit(_A, "_arc_to_cubic", "arc = arc.correct_out_of_range_radii()", "arc.correct_out_of_range_radii()")], [("R-POLY.radii-correction", "_arc_to_cubic")]),
     Variant("sweep != large", [Edit(_A, "EllipticalArc.end_to_center_parametrization", "if self.sweep == self.large:", "if self.sweep != self.large:")], [("R-CASE.arc-flags", "end_to_center")]),
     Variant("exact end point branch dropped", [Edit(_A, "_arc_to_cubic", "        if i == num_segments - 1:\n            end_point = arc.end_point\n        else:\n            end_point = point_transform.map_point(end_point)",
                                                        "        end_point = point_transform.map_point(end_point)")], [("R-POLY.arc-segments", "_arc_to_cubic")]),
